@@ -69,11 +69,15 @@ def setup(tier):
         stubs.ctc_engine_json(C, CHARS[:C - 1], line_px_height=H, pool=1)
 
 
-def engine(C):
-    if C not in _ENG:
+CHARS_ZW = ['a', '​', 'c']        # a charset that holds the zero-width space as a regular symbol in the middle
+
+
+def engine(C, zw=False):
+    key = (C, zw)
+    if key not in _ENG:
         from mc import stubs
-        _ENG[C] = stubs.make_ctc_engine(C, CHARS[:C - 1], line_px_height=H, pool=1)
-    return _ENG[C]
+        _ENG[key] = stubs.make_ctc_engine(C, (CHARS_ZW if zw else CHARS)[:C - 1], line_px_height=H, pool=1)
+    return _ENG[key]
 
 
 def shards(tier):
@@ -158,6 +162,24 @@ def check_case(case, ctx):
     if bad:
         ctx.violation('engine-and-standalone-agree', f'{K}/engine.run_ocr/{"count" if "outputs for" in bad else "text"}',
                       f'PytorchEngineLineOCR.run_ocr, batch of {len(paths)} lines, style {style}: {bad}')
+    if len(paths) <= 3:
+        # history: the logits handed out for this batch must stay what they were after the engine has processed another batch
+        held, snap = logits, logits.copy()
+        other = img[::-1].copy()
+        other[:, :C, :, 0] = np.roll(other[:, :C, :, 0], 1, axis=1)
+        eng.run_ocr(other)
+        ctx.executed()
+        if not np.array_equal(held, snap):
+            ctx.violation('engine-and-standalone-agree', f'{K}/engine.run_ocr/returned-logits-change-after-the-next-batch',
+                          f'run_ocr, batch of {len(paths)} lines: the logits returned for this batch were overwritten by the following run_ocr call')
+        # a charset with the zero-width space in the middle is mapped like any other symbol
+        if C == 4 and style == 'peaky':
+            dec2, _ = engine(C, zw=True).run_ocr(img)
+            ctx.executed()
+            want2 = [''.join(CHARS_ZW[c] for c in collapse(p, blank)) for p in paths]
+            if list(dec2) != want2:
+                ctx.violation('greedy-equals-collapse', f'{K}/engine.run_ocr/charset-with-zero-width-space',
+                              f'engine with characters {CHARS_ZW!r}: paths {paths} -> {list(dec2)!r}, the character table gives {want2!r}')
 
     # (3,4) stand-alone decoders, line by line
     letters = chars + [BLANK_SYMBOL]
